@@ -104,6 +104,22 @@ func VerifC09Att() {
 		pubSet = set
 		return nil
 	})
+	// "prime"=1: the same aggregator first handles a fully valid aggregation over another content X; the partials of the
+	// call under test may then reuse signatures made over X (signs == 100)
+	var primeRoot [32]byte
+	if vrt.Param("prime") == 1 {
+		headX := vrt.Byte("headX")
+		primeRoot, _ = vAtt(headX, [11]byte{}, false).MessageRoot()
+		var pps []core.ParSignedData
+		for i := 0; i < m; i++ {
+			tok := [11]byte{1, 1, byte(i + 1)}
+			copy(tok[3:], primeRoot[:8])
+			pps = append(pps, core.ParSignedData{SignedData: vAtt(headX, tok, false), ShareIdx: i + 1})
+		}
+		errP := agg.Aggregate(context.Background(), core.Duty{Slot: 1, Type: core.DutyAttester}, map[core.PubKey][]core.ParSignedData{vPkA: pps})
+		vrt.Assert("the priming aggregation over valid partials succeeds", errP == nil && published == 1 && verified == 1)
+		published, verified = 0, 0
+	}
 	var ps []core.ParSignedData
 	var heads [8]byte
 	var roots [8][32]byte
@@ -119,14 +135,19 @@ func VerifC09Att() {
 			toks[i][b] = vrt.Byte(vrt.N("tok", i, b))
 		}
 		signs := int(vrt.Byte(vrt.N("signs", i)))
-		for b := 0; b < 8; b++ {
-			toks[i][3+b] = byte(signs)
-		}
+		// a selector that names no content stands for "not a partial signature at all" (an ideal hash value could
+		// otherwise be chosen equal to any filler bytes, which no real hash reproduces)
+		vrt.Assume(signs < m || (signs == 100 && vrt.Param("prime") == 1) || toks[i][0] != 1)
 		for j := 0; j < m; j++ {
 			if signs == j {
 				for b := 0; b < 8; b++ {
 					toks[i][3+b] = roots[j][b]
 				}
+			}
+		}
+		if signs == 100 && vrt.Param("prime") == 1 {
+			for b := 0; b < 8; b++ {
+				toks[i][3+b] = primeRoot[b]
 			}
 		}
 		ps = append(ps, core.ParSignedData{SignedData: vAtt(heads[i], toks[i], idx == i+1), ShareIdx: i + 1})
@@ -160,7 +181,7 @@ func VerifC09Att() {
 			isAtt && att.Phase0 != nil && att.Phase0.Data.BeaconBlockRoot[0] == heads[chosen] && (att.ValidatorIndex != nil) == (idx > 0))
 		pr, _ := d.MessageRoot()
 		vr, _ := lastVerified.MessageRoot()
-		vrt.Assert("the published object is the object that was verified", verified == 1 && pr == vr)
+		vrt.Assert("the published object is the object that was verified (in this call)", verified == 1 && pr == vr)
 		vrt.Reach("published")
 	}
 	vrt.Reach("end")
